@@ -114,7 +114,7 @@ def radial_transverse_frequency(
     elif ndim == 2:
         kx = 2 * np.pi * np.fft.fftfreq(input_shape[0], dx[0])
         ky = 2 * np.pi * np.fft.fftfreq(input_shape[1], dx[1])
-        kp = np.sqrt(kx[None, :] ** 2 + ky[:, None] ** 2)
+        kp = np.sqrt(kx[:, None] ** 2 + ky[None, :] ** 2)
     return kp
 
 
